@@ -5,7 +5,8 @@ from vlib import common, prog
 LEVEL = 'exploration'
 
 
-def render_stmts(ss, cid, ind='  ', quoted=False, sleep=1):
+def render_stmts(ss, cid, ind='  ', quoted=False, sleep=1, defs=None):
+    """defs: list collecting the definitions of called functions (rendered once per program)"""
     out = []
     for s in ss:
         if s['t'] == 'out':
@@ -14,12 +15,12 @@ def render_stmts(ss, cid, ind='  ', quoted=False, sleep=1):
             if s['k'] == 'return':
                 out.append(ind + 'return %d' % s['n'])
             else:
-                name = s['name'] if s['name'] != 'fn' else 'fn%d' % cid
+                name = {'fn': 'fn%d' % cid, 'inner': 'inner%d' % cid}.get(s['name'], s['name'])
                 out.append(ind + '%s %s' % (s['k'], name))
         elif s['t'] == 'if':
             # items that arrive through a pipe are strings
             out.append(ind + ('if { $%s == "%d" } then {' if quoted else 'if { $%s == %d } then {') % (s['var'], s['val']))
-            out.append(render_stmts(s['body'], cid, ind + '  ', quoted, sleep))
+            out.append(render_stmts(s['body'], cid, ind + '  ', quoted, sleep, defs))
             out.append(ind + '}')
         elif s['t'] == 'loop':
             n = len(s['items'])
@@ -32,8 +33,13 @@ def render_stmts(ss, cid, ind='  ', quoted=False, sleep=1):
                 out.append(ind + '  %s = $%s + 1' % (s['var'], s['var']))
             elif s['kind'] == 'for':
                 out.append(ind + 'for { %s = 1; $%s <= %d; %s = $%s + 1 } {' % (s['var'], s['var'], n, s['var'], s['var']))
-            out.append(render_stmts(s['body'], cid, ind + '  ', quoted, sleep))
+            out.append(render_stmts(s['body'], cid, ind + '  ', quoted, sleep, defs))
             out.append(ind + '}')
+        elif s['t'] == 'call':
+            # the callee gets the caller's loop variable as a typed parameter (functions do not see their caller's variables)
+            if defs is not None and not defs:
+                defs.append('function %s%d (i: int) {\n%s\n}' % (s['fname'], cid, render_stmts(s['body'], cid, '  ', quoted, sleep)))
+            out.append(ind + '%s%d $i' % (s['fname'], cid))
         elif s['t'] == 'staged':
             # the producer: a stage of the same pipeline that prints one item per `sleep` seconds and reports on stderr
             out.append(ind + '%%[%s] -> foreach p {' % ','.join(str(x) for x in s['items']))
@@ -41,7 +47,7 @@ def render_stmts(ss, cid, ind='  ', quoted=False, sleep=1):
             out.append(ind + '  out $p')
             out.append(ind + '  sleep %d' % sleep)
             out.append(ind + '} -> foreach %s {' % s['var'])
-            out.append(render_stmts(s['body'], cid, ind + '  ', True, sleep))
+            out.append(render_stmts(s['body'], cid, ind + '  ', True, sleep, defs))
             out.append(ind + '}')
     return '\n'.join(out)
 
@@ -78,8 +84,8 @@ def judge(c, tail, runs):
 
 
 def run(ck, replay=None):
-    ck.cov['rule'] = ('TLC evaluates the structured meaning (completion records normal/break name/continue name/return n) of every program of two '
-                      'families in Control.tla.  nest: a function whose body has an outer loop (foreach, while or for) over 3 items, optionally an '
+    ck.cov['rule'] = ('TLC evaluates the structured meaning (completion records normal/break name/continue name/return n) of every program of three '
+                      'families in Control.tla.  call: a function called from a loop of the main function ends itself with return / break <its name> / break if at a chosen item - the caller\'s loop and the caller carry on.  nest: a function whose body has an outer loop (foreach, while or for) over 3 items, optionally an '
                       'inner loop (any of the three kinds) over 2 items, and in each loop body optionally `if {var == k} then { out; CTRL; out }` with '
                       'CTRL in {break <loop name>, continue <loop name>, return 3, break if, break <function>} where the loop name is that of any '
                       'enclosing loop (so with loops of different kinds the outer one can be named from the inner one).  stage: the consumer '
@@ -104,20 +110,25 @@ def run(ck, replay=None):
     for c in cases:
         for tail in ('none', 'after'):
             cid += 1
-            src = 'function fn%d {\n%s\n}\nfn%d' % (cid, render_stmts(c['body'], cid), cid)
+            defs = []
+            main = render_stmts(c['body'], cid, defs=defs)
+            src = ''.join(d + '\n' for d in defs) + 'function fn%d {\n%s\n}\nfn%d' % (cid, main, cid)
             if tail == 'after':
                 src += '\nout after'
-            jobs[c['family']].append({'id': cid, 'src': src, 'timeout_ms': 60000, 'repeat': 2 if c['family'] == 'nest' else 1})
+            jobs['nest' if c['family'] == 'call' else c['family']].append({'id': cid, 'src': src, 'timeout_ms': 60000, 'repeat': 2 if c['family'] == 'nest' else 1})
             meta[cid] = (c, tail, src)
     res = prog.run_programs(ck, jobs['nest'], shards=8, tag='c39')
     res.update(prog.run_programs(ck, jobs['stage'], shards=min(len(jobs['stage']), 2 * common.NCPU), tag='c39s'))
     nontriv = set()
-    fam = {'nest': 0, 'stage': 0}
+    fam = {'nest': 0, 'stage': 0, 'call': 0}
     for cid, (c, tail, src) in meta.items():
         x = res.get(cid)
         ck.cov['evaluations'] += 1
         p = c['params']
-        if c['family'] == 'nest':
+        if c['family'] == 'call':
+            key = 'call k1=%s c1=%s@%d c2=%s@%d tail=%s' % (p['k1'], p['c1'], p['w1'], p['c2'], p['w2'], tail)
+            triv = False
+        elif c['family'] == 'nest':
             key = 'k1=%s c1=%s@%d inner=%s c2=%s@%d tail=%s' % (p['k1'], p['c1'], p['w1'], p['inner'], p['c2'], p['w2'], tail)
             triv = p['c1'] == 'none' and p['c2'] == 'none'
         else:
